@@ -852,6 +852,21 @@ static std::vector<uint32_t> uni_string(Rng &r, int flavour) {
         static const uint32_t marks[] = {0x300, 0x301, 0x302, 0x323, 0x316, 0x31b, 0x327, 0x328, 0x345, 0x308};
         int n = pick(r, {11, 12, 16, 21, 25, 40});
         w.push_back(r.chance(1, 2) ? 'q' : 'a');
+        if (r.chance(1, 2)) {
+            // as in real text: the marks are in canonical order already, except for (at most) one inversion at a random
+            // place - two sorted runs one after the other ("is it sorted yet" shortcuts, incremental sorting)
+            static const struct { uint32_t cp; int cc; } mk[] = {{0x334, 1}, {0x335, 1}, {0x321, 202}, {0x327, 202}, {0x328, 202}, {0x31b, 216}, {0x316, 220},
+                {0x317, 220}, {0x323, 220}, {0x324, 220}, {0x300, 230}, {0x301, 230}, {0x302, 230}, {0x308, 230}, {0x30a, 230}, {0x315, 232}, {0x35c, 233}, {0x35d, 234}, {0x345, 240}};
+            n = 11 + r.below(36);
+            int k = 1 + r.below(n - 1);
+            std::vector<int> a, c;
+            for (int i = 0; i < k; i++) a.push_back(r.below(19));
+            for (int i = k; i < n; i++) c.push_back(r.below(19));
+            std::sort(a.begin(), a.end());
+            std::sort(c.begin(), c.end());
+            for (int i : a) w.push_back(mk[i].cp);
+            for (int i : c) w.push_back(mk[i].cp);
+        } else
         for (int i = 0; i < n; i++) w.push_back(r.chance(1, 3) ? 0x300 : marks[r.below(10)]);
         if (r.chance(1, 2)) { w.push_back('z'); w.push_back(0x301); }
         break;
